@@ -29,6 +29,17 @@ void __CPROVER_assert(bool, const char *);
 #endif
 #define VH_ENTRY extern "C" __attribute__((noinline)) void
 
+// typed allocation: inlined so that the malloc result is cast to T* at the call site and ll2c can give cbmc a typed object
+#ifdef VH_NATIVE
+template <class T> static inline T *vh_typed_alloc(T *, size_t n) { return (T *)malloc(sizeof(T) * n); }
+#else
+template <class T> T *vh_typed_alloc(T *, size_t n);      // no body: ll2c turns the call into (T*)malloc(sizeof(T) * n)
+#endif
+template <class T> static inline __attribute__((always_inline)) T *vh_new(size_t n = 1) {
+  T *p = vh_typed_alloc((T *)0, n);
+  ASSUME(p != 0);
+  return p;
+}
 static inline bool nondet_bool() { return nondet_u8() & 1; }
 // exact-size heap buffer with arbitrary contents
 static inline uint8_t *vh_bytes(size_t n) {
